@@ -437,6 +437,6 @@ Proof.
     + unfold shp, pop_frame. simpl. rewrite Hst, Es, Htv, Et, Hac, Ea. reflexivity.
     + split; [intros m Hm; simpl; rewrite Hsc; unfold s1, push_obj, push_frame; simpl; exact Hm|].
       (* arrays: the bound and the number of elements are kept by Arrays.set *)
-      intros m d els Hl. simpl. apply Hk2. rewrite Ear. exact Hl.
+      intros m d els Hl. simpl. apply Hk2. exact Hl.
 Qed.
 End Inplace.
